@@ -25,7 +25,7 @@
    `complete_no_raise_repaired` when the repairs are applied. *)
 From Coq Require Import List Arith Bool ZArith QArith.
 Import ListNotations.
-From SV Require Import C09.Tracker C09.Lemmas.
+From SV Require Import C09.Tracker C09.Lemmas C09.TrackerX C09.LemmasX.
 Close Scope Q_scope.
 Open Scope nat_scope.
 
@@ -233,3 +233,186 @@ Theorem c09_complete_no_raise_repaired : forall cfg h, repaired cfg ->
   Forall ok_complete (trace cfg init h) /\ length (run cfg h) = length h.
 Proof. exact complete_no_raise_repaired. Qed.
 Print Assumptions c09_complete_no_raise_repaired.
+
+(* ======================================================================== *)
+(* ROUND 2 — the widened model C09/TrackerX.v: `max_tracks`, the name checks of
+   get_features / get_scores / assign_tracks, FlowShiftTracker (same state
+   machine; its score matrices may be NaN everywhere), and the two findings
+   this uncovered:
+     F4cap  local queues + max_tracks: Exception("Exceeding max tracks") escapes
+            from Tracker.track (and max_tracks + 1 tracks can exist);
+     F4iv   the matcher returns no pair on a non-empty matrix (every score NaN):
+            update_tracks does nothing, detections dropped / without track.
+   xconfig = (base config, max_tracks, fix_cap, fix_iv, four name-validity
+   flags); `x_now` = the tree as it is, `x_rep` = both proposed repairs. *)
+
+(* the widened model restricted to round 1's configuration space IS round 1's
+   model: every theorem above speaks about TrackerX.xrun (xplain cfg) too *)
+Theorem c09x_widened_model_conservative : forall cfg h,
+  Forall (contract_step cfg) (trace cfg init h) ->
+  xtrace (xplain cfg) init h = trace cfg init h /\ xrun (xplain cfg) h = run cfg h.
+Proof. exact xrun_plain. Qed.
+Print Assumptions c09x_widened_model_conservative.
+
+(* (a) for EVERY widened configuration, history, matrices and answers: what a
+   call returns is a sub-list of what it was given, without repetition *)
+Theorem c09x_outputs_subset_nodup : forall X h x out,
+  In x (xtrace X init h) -> t_out x = Ok out ->
+  incl (uids_of out) (uids (f_dets (t_frame x))) /\
+  (NoDup (uids (f_dets (t_frame x))) -> NoDup (uids_of out)).
+Proof. exact xoutputs_subset_nodup. Qed.
+Print Assumptions c09x_outputs_subset_nodup.
+
+(* --- definitions restated ------------------------------------------------- *)
+
+Lemma cap_of_def : forall X, cap_of X = if lq (base X) then max_tr X else None.
+Proof. reflexivity. Qed.
+Print Assumptions cap_of_def.
+
+(* selector of F4cap at a call: the call needs `need` > 0 new tracks and
+   current_tracks would grow beyond max_tracks + 1 *)
+Lemma sel_cap_def : forall X st f,
+  sel_cap X st f =
+  (negb (fix_cap X) &&
+   match cap_of X with
+   | Some k => (0 <? need X st f) && (k + 1 <? length (cur st) + need X st f)
+   | None => false
+   end).
+Proof. reflexivity. Qed.
+Print Assumptions sel_cap_def.
+
+Lemma cap_silent_def : forall X x, cap_silent X x = (sel_cap X (t_state x) (t_frame x) = false).
+Proof. reflexivity. Qed.
+Print Assumptions cap_silent_def.
+
+Lemma cap_asis_or_none_def : forall X, cap_asis_or_none X = (cap_of X = None \/ fix_cap X = false).
+Proof. reflexivity. Qed.
+Print Assumptions cap_asis_or_none_def.
+
+Lemma xrepaired_def : forall X,
+  xrepaired X = (names_ok X = true /\ repaired (base X) /\ fix_cap X = true /\ fix_iv X = true).
+Proof. reflexivity. Qed.
+Print Assumptions xrepaired_def.
+
+Lemma cap_inv_def : forall X m, cap_inv X m = (forall K, cap_of X = Some K -> m <= K).
+Proof. reflexivity. Qed.
+Print Assumptions cap_inv_def.
+
+Lemma cap_full_def : forall X m, cap_full X m = (exists K, cap_of X = Some K /\ K <= m).
+Proof. reflexivity. Qed.
+Print Assumptions cap_full_def.
+
+(* what a call of the repaired tracker guarantees: current_tracks = [0..m) grows
+   by fresh ids and never beyond max_tracks; the call returns; the returned
+   tracks are pairwise distinct current tracks; every detection above the
+   threshold is returned — with a track, or, only if max_tracks tracks exist
+   after the call, without one *)
+Lemma xok_def : forall X x,
+  xok X x =
+  (let st := t_state x in
+   let st' := fst (xstep X st (t_frame x)) in
+   cur st = seq 0 (length (cur st)) /\
+   (exists k, cur st' = cur st ++ seq (length (cur st)) k) /\
+   cap_inv X (length (cur st')) /\
+   exists out, t_out x = Ok out /\
+     NoDup (tracks_of out) /\ incl (tracks_of out) (cur st') /\
+     forall u, In (u, true) (f_dets (t_frame x)) ->
+       (exists t, In (u, Some t) out) \/
+       (cap_full X (length (cur st')) /\ exists o, In (u, o) out)).
+Proof. reflexivity. Qed.
+Print Assumptions xok_def.
+
+(* --- the tree as it is ---------------------------------------------------- *)
+
+(* F4cap: local queues, max_tracks = 1, three detections in the first frame:
+   Exception; every matcher, window, reduction *)
+Theorem c09x_no_exception_refuted_max_tracks : forall g w r,
+  let X := x_now (cfg_rep true g w r) (Some 1) in
+  Forall (contract_step (base X)) (xtrace X init wit_cap) /\
+  Forall (finite_step (base X)) (xtrace X init wit_cap) /\
+  In (Raise ExcErr) (xrun X wit_cap).
+Proof. exact cap_refuted_now. Qed.
+Print Assumptions c09x_no_exception_refuted_max_tracks.
+
+(* F4iv: one animal, then a frame whose only score is NaN; the Hungarian
+   contract (repaired matcher) holds for the empty answer; the detection is
+   dropped (fixed window) / returned without a track (local queues) *)
+Theorem c09x_completeness_refuted_all_nan : forall l r,
+  let X := x_now (cfg_rep l false 3 r) None in
+  Forall (contract_step (base X)) (xtrace X init wit_all_nan) /\
+  Forall (cap_silent X) (xtrace X init wit_all_nan) /\
+  ~ Forall ok_complete (xtrace X init wit_all_nan).
+Proof. exact all_nan_refuted_now. Qed.
+Print Assumptions c09x_completeness_refuted_all_nan.
+
+(* the strongest true statement on the tree as it is: valid names, F4 i-iii
+   repaired, ANY max_tracks, every history: if neither selector fires —
+   `finite_step` = not every cell of a non-empty matrix given to the Hungarian
+   matcher is NaN [F4iv], `cap_silent` = no call needs an id > max_tracks
+   [F4cap] — every call returns and is complete *)
+Theorem c09x_complete_no_raise_partial : forall X h,
+  names_ok X = true -> fix_iv X = false -> cap_asis_or_none X -> repaired (base X) ->
+  Forall (contract_step (base X)) (xtrace X init h) ->
+  Forall (finite_step (base X)) (xtrace X init h) ->
+  Forall (cap_silent X) (xtrace X init h) ->
+  Forall ok_complete (xtrace X init h) /\ length (xrun X h) = length h.
+Proof. exact xcomplete_no_raise_partial. Qed.
+Print Assumptions c09x_complete_no_raise_partial.
+
+(* clause (b) on the tree as it is, for every max_tracks and history, with NO
+   selector hypothesis: every executed call either raises "Exceeding max
+   tracks" or satisfies `tracks_ok` (current_tracks = [0..m) grows by fresh ids,
+   returned tracks pairwise distinct current tracks) *)
+Theorem c09x_distinct_tracks_fresh_ids : forall X h,
+  names_ok X = true -> fix_iv X = false -> cap_asis_or_none X ->
+  Forall (contract_step (base X)) (xtrace X init h) ->
+  Forall (fun x => t_out x = Raise ExcErr \/ tracks_ok (base X) x) (xtrace X init h).
+Proof. exact xdistinct_tracks_asis. Qed.
+Print Assumptions c09x_distinct_tracks_fresh_ids.
+
+(* non-vacuity of the partial theorem with a cap that is reached but not exceeded *)
+Example ex_cap_reached_not_exceeded : forall g w r,
+  xrun (x_now (cfg_rep true g w r) (Some 1)) [ ([(10, true); (11, true)], [], AFail) ]
+  = [Ok [(10, Some 0); (11, Some 1)]].
+Proof. exact wit_cap_off_by_one. Qed.
+
+(* --- both repairs applied: the full statement, no side hypothesis -------- *)
+
+Theorem c09x_repaired_full : forall X h, xrepaired X ->
+  Forall (contract_step (base X)) (xtrace X init h) ->
+  Forall (xok X) (xtrace X init h) /\ length (xrun X h) = length h.
+Proof. exact xrepaired_full. Qed.
+Print Assumptions c09x_repaired_full.
+
+Theorem c09x_repaired_full_no_cap : forall X h, xrepaired X -> cap_of X = None ->
+  Forall (contract_step (base X)) (xtrace X init h) ->
+  Forall ok_complete (xtrace X init h) /\ length (xrun X h) = length h.
+Proof. exact xrepaired_full_nocap. Qed.
+Print Assumptions c09x_repaired_full_no_cap.
+
+Example ex_cap_repaired : forall g w r,
+  xrun (x_rep (cfg_rep true g w r) (Some 1)) wit_cap = [Ok [(10, Some 0); (11, None); (12, None)]].
+Proof. exact wit_cap_rep. Qed.
+
+Example ex_all_nan_repaired : forall l r,
+  xrun (x_rep (cfg_rep l false 3 r) None) wit_all_nan = [Ok [(10, Some 0)]; Ok [(20, Some 1)]].
+Proof. exact wit_all_nan_rep. Qed.
+
+(* --- names that are no key of the tracker's tables: ValueError ---------- *)
+
+Theorem c09x_invalid_feature_raises : forall X st f,
+  feat_ok X = false -> xstep X st f = (st, Raise ValueErr).
+Proof. exact xinvalid_feature_raises. Qed.
+Print Assumptions c09x_invalid_feature_raises.
+
+Theorem c09x_invalid_scoring_raises : forall X st f,
+  feat_ok X = true -> is_init (base X) st = false -> score_ok X && red_ok X = false ->
+  xstep X st f = (st, Raise ValueErr).
+Proof. exact xinvalid_scoring_raises. Qed.
+Print Assumptions c09x_invalid_scoring_raises.
+
+Theorem c09x_invalid_matching_raises : forall X st f,
+  feat_ok X = true -> is_init (base X) st = false -> match_ok X = false ->
+  snd (xstep X st f) = Raise ValueErr.
+Proof. exact xinvalid_matching_raises. Qed.
+Print Assumptions c09x_invalid_matching_raises.
